@@ -11,7 +11,7 @@ RULE = ('case = handler program (data, interpreted by vlib/programs.py): outcome
         'close(), __iter__ returning a separate iterator) of str or bytes with leading empty items, generator or iterable failing at the first next(), file-like '
         'with / without close and __iter__, real seekable streams already read up to an offset, with / without wsgi.file_wrapper, HTTPResponse / HTTPError returned, raised or yielded first, nested up to 3 deep, '
         'one response object shared by all requests, exception of a generated class (RuntimeError, ValueError, KeyError, Unicode*Error, OSError, StopIteration, a custom class ...) in the handler}; request paths with and without non-ASCII tails; status set on the response or on the returned object from {100,101,102,103,199, '
-        '200,201,204,205,299 Custom,304,404,418,500,999}; headers, cookies, optional explicit Content-Length; 0-3 before-hooks (ok / raise / raise a response) and '
+        '200,201,204,205,299 Custom,304,404,418,500,999} and string status lines (valid with surrounding blanks; malformed: four digits, glued reason, decimal point, leading zero / sign, two digits, full-width digits - these must end as a well-formed 500); iterables / files whose close() raises; start_response must have been called exactly once; headers, cookies, optional explicit Content-Length; 0-3 before-hooks (ok / raise / raise a response) and '
         '0-3 after-hooks; custom error handlers for 404/405/418/500 returning str / bytes / generator / a response object / the same error again, or raising; a before-hook that rewrites PATH_INFO (routing must see the rewritten path); request method GET, HEAD, POST, PUT, DELETE, '
         'OPTIONS; path hits the route, misses it (404) or uses a verb that is not registered (405). Every program is served three times on one application (later '
         'requests with a longer URL). Oracle: independent PEP 3333 validator (exactly one start_response before the first chunk, status line, header list of '
@@ -170,6 +170,8 @@ def predict_status(case):
     if case['target'] == 'wrongverb':
         return 405 if h.get('405') != 'raise' else 500
     base = P.status_of(case['resp_status'], 200)
+    if base == 'invalid':
+        return 500          # response.status = <malformed string> fails inside the handler
     out = case['out']
     # a failure inside the handler / at the first next() is rendered through the 500 handler
     return P.model_status(out, base, h)
@@ -185,10 +187,17 @@ def check_case(ctx, case):
     for reqno in (0, 1, 2):
         r, log, tr = serve(case, box, reqno)
         what = f'request {reqno} {case["method"]} target={case["target"]} program={ {k: case[k] for k in ("out", "resp_status", "before", "after", "handlers", "file_wrapper")} }'
+        failing_close = P.has_failing_close(case['out'])
+        if failing_close and r.escaped is not None and P.CLOSE_FAILED in str(r.escaped):
+            # the SERVER closed a body it had been handed and that close() failed: nothing the application could turn into a 500 any more
+            r.escaped = None
+            ctx.count('failing_close_called_by_the_server')
         validate(r, what)
+        if len(r.calls) != 1:
+            raise CheckFailure(f'start_response was called {len(r.calls)} times ({[c["status"] for c in r.calls]}), the property says exactly once: {what}')
         code = r.code
         # ---- status
-        want = predict_status(case)
+        want = None if failing_close else predict_status(case)      # (where a failing close() of a discarded body ends is not predicted: one well-formed response)
         if want is not None and code != want:
             raise CheckFailure(f'status {r.status!r}, predicted {want}: {what}\n{r.errors[-500:]}')
         # ---- body suppression
@@ -209,7 +218,7 @@ def check_case(ctx, case):
             closes = getattr(o, 'closes', 0)
             if closes > 1:
                 raise CheckFailure(f'{type(o).__name__} closed {closes} times: {what}')
-            if hasattr(o, 'close') and o.produced and closes != 1:
+            if hasattr(o, 'close') and o.produced and closes != 1 and not (failing_close and code == 500):
                 raise CheckFailure(f'{type(o).__name__} produced output but was closed {closes} times: {what}')
             if hasattr(o, 'close') and o.produced:
                 ctx.count('close_checked')
@@ -291,6 +300,26 @@ def run(ctx):
                 for rs in (None, 103, 204, 304, 201):
                     for fw in (False, True):
                         ctx.guarded(check_case, dict(base, out=out, method=method, resp_status=rs, file_wrapper=fw))
+        # every string status of the pool (valid with blanks, malformed in each way) set on the response, or carried by a returned / raised / yielded response object
+        for stt in [x for x in P.STATUSES if isinstance(x, str)]:
+            for method in ('GET', 'HEAD'):
+                ctx.guarded(check_case, dict(base, out={'k': 'str', 'v': 'x'}, method=method, resp_status=stt))
+                for how in ('return', 'raise', 'yield'):
+                    for cls in ('HTTPResponse', 'HTTPError'):
+                        ctx.guarded(check_case, dict(base, out={'k': 'resp', 'cls': cls, 'status': stt, 'body': {'k': 'str', 'v': 'b'}, 'how': how, 'headers': [], 'shared': False},
+                                                     method=method, resp_status=None))
+        ctx.count('string_status_grid')
+        # a handler iterable / file whose close() fails, for responses that keep and that lose their body
+        for out in (dict(items, k='iterobj', has_close=True, raise_at=None, close_raises=True),
+                    {'k': 'file', 'data': 'file content', 'has_close': True, 'has_iter': True, 'close_raises': True},
+                    {'k': 'file', 'data': 'file content', 'has_close': True, 'has_iter': False, 'close_raises': True}):
+            for method in ('GET', 'HEAD'):
+                for rs in (None, 204, 304, 103):
+                    for fw in (False, True):
+                        ctx.guarded(check_case, dict(base, out=out, method=method, resp_status=rs, file_wrapper=fw))
+                        ctx.guarded(check_case, dict(base, out={'k': 'resp', 'cls': 'HTTPResponse', 'status': rs, 'body': out, 'how': 'return', 'headers': [], 'shared': False},
+                                                     method=method, resp_status=None, file_wrapper=fw))
+        ctx.count('failing_close_grid')
         # error-handler chains: every pair of handler kinds for (the status that occurs, 500)
         kinds = ['str', 'bytes', 'gen', 'raise', 'empty', 'http_response', 'error_again']
         for target, code in (('miss', '404'), ('wrongverb', '405')):
